@@ -218,5 +218,25 @@ fn verif_sort_witness_exhaustive()
             }
         }
     }
+    /*  sources that are SPELLED like a target with path decoration ("../t1", "./t1", "/t1") are other paths: plain source files,
+        never bound to the rule that makes t1 (so they pull nothing into scope) */
+    for deco in ["../", "./", "/"].iter()
+    {
+        for code in 0..(1u64 << 9)
+        {
+            let targs : Vec<Vec<String>> = (0..3).map(|i| vec![name(i)]).collect();
+            let deps : Vec<Vec<String>> = (0..3).map(|i| (0..3).filter(|j| (code >> (i * 3 + j)) & 1 == 1).map(|j| format!("{}{}", deco, name(j))).collect()).collect();
+            let leaves : Vec<Vec<String>> = vec![vec![], vec!["shared".to_string()], vec!["shared".to_string()]];
+            for goal in vec![None, Some(name(0)), Some(name(2))]
+            {
+                cases += 1;
+                for c in run_case(&targs, &deps, &leaves, &goal, false, &mut calls)
+                {
+                    bad += 1;
+                    if bad <= 40 { println!("WITNESS {} :: {}", describe(&targs, &deps, &goal), c); }
+                }
+            }
+        }
+    }
     println!("SUMMARY max_rules={} cases={} sorter_calls={} disagreements={} kinds={:?}", max_rules, cases, calls, bad, kinds);
 }
